@@ -27,6 +27,7 @@ import (
 	"net/netip"
 	"os"
 	"path/filepath"
+	"runtime"
 	"sort"
 	"strings"
 	"sync"
@@ -51,6 +52,7 @@ type e9Net struct {
 	Ctry string `json:"ctry"`
 	Cont string `json:"cont"`
 	Sub  string `json:"sub"`
+	Sub2 string `json:"sub2,omitempty"` // writer only: a second (less significant) subdivision
 }
 
 type e9FileDesc struct {
@@ -165,7 +167,12 @@ func e9Record(kind string, n e9Net) []byte {
 		m["country"] = e9Map(map[string][]byte{"iso_code": e9Str(n.Ctry)})
 	}
 	if n.Sub != "" {
-		m["subdivisions"] = append(e9Ctrl(11, 1), e9Map(map[string][]byte{"iso_code": e9Str(n.Sub)})...)
+		subs := append(e9Ctrl(11, 1), e9Map(map[string][]byte{"iso_code": e9Str(n.Sub)})...)
+		if n.Sub2 != "" {
+			subs = append(e9Ctrl(11, 2), e9Map(map[string][]byte{"iso_code": e9Str(n.Sub)})...)
+			subs = append(subs, e9Map(map[string][]byte{"iso_code": e9Str(n.Sub2)})...)
+		}
+		m["subdivisions"] = subs
 	}
 	return e9Map(m)
 }
@@ -179,20 +186,31 @@ func e9WriteMMDB(kind string, nets []e9Net, id int) []byte {
 		idx[i] = i
 	}
 	sort.SliceStable(idx, func(a, b int) bool { return nets[idx[a]].N < nets[idx[b]].N })
+	for _, i := range idx {
+		root.insert(e9Bits(nets[i].B, nets[i].N), i)
+	}
+	// the data section holds the records the tree points to, each once
 	var data []byte
 	offs := map[string]int{}
 	recOff := make([]int, len(nets))
-	for _, i := range idx {
-		rec := e9Record(kind, nets[i])
-		o, ok := offs[string(rec)]
-		if !ok {
-			o = len(data)
-			offs[string(rec)] = o
-			data = append(data, rec...)
+	var walk func(n *e9Trie)
+	walk = func(n *e9Trie) {
+		for _, c := range n.child {
+			if !c.leaf {
+				walk(c)
+			} else if c.data >= 0 {
+				rec := e9Record(kind, nets[c.data])
+				o, ok := offs[string(rec)]
+				if !ok {
+					o = len(data)
+					offs[string(rec)] = o
+					data = append(data, rec...)
+				}
+				recOff[c.data] = o
+			}
 		}
-		recOff[i] = o
-		root.insert(e9Bits(nets[i].B, nets[i].N), i)
 	}
+	walk(root)
 	var nodes []*e9Trie
 	queue := []*e9Trie{root}
 	for len(queue) > 0 {
@@ -478,11 +496,23 @@ type e9Run struct {
 	ptrs   map[*Location]*e9Ptr
 	byID   map[int]*e9Ptr
 	order  []*e9Ptr
-	refr   map[string]*e9Refresh
+	refr    map[string]*e9Refresh
+	blocked map[string]*e9Refresh
 	shared map[string]*e9File // shipped files are registered once per run
 }
 
+// e9Settled: Refresh has returned, or stands in front of the critical sections of both goroutines, or in
+// front of the one that swaps the databases.
+func e9Settled(rf *e9Refresh) bool {
+	_, l := rf.pending["lock:loc"]
+	_, c := rf.pending["lock:ctry"]
+	_, d := rf.pending["lock:db"]
+	return rf.ret || (l && c) || d
+}
+
 type e9Refresh struct {
+	mayBlock, blocked bool // RStart: waiting for another refresh of the same File is an outcome
+	swapped           int
 	done    chan error
 	pending map[string]e9Arrival
 	extra   []string
@@ -600,14 +630,37 @@ func (x *e9Run) put(kind string, f *e9File) {
 
 const e9Wait = 20 * time.Second
 
+// e9RefreshBlocked: some goroutine is parked on a mutex inside File.Refresh (a File that serialises its
+// refreshes, asked to start one while another one stands at a gate).  A state, not a time-out: the goroutine
+// stays parked until the harness lets the other refresh go on.
+func e9RefreshBlocked() bool {
+	buf := make([]byte, 1<<20)
+	n := runtime.Stack(buf, true)
+	for _, g := range strings.Split(string(buf[:n]), "\n\n") {
+		hdr, _, _ := strings.Cut(g, "\n")
+		if strings.Contains(g, "geoip.(*File).Refresh") && !strings.Contains(g, "e9Hook") &&
+			!strings.Contains(g, "sync.(*WaitGroup).Wait") &&
+			(strings.Contains(g, "sync.(*Mutex).Lock") || strings.Contains(g, "sync.(*RWMutex).Lock")) &&
+			(strings.Contains(hdr, "Mutex.Lock") || strings.Contains(hdr, "semacquire")) {
+			return true
+		}
+	}
+	return false
+}
+
 // collect takes arrivals until cond holds for refresh r.
 func (x *e9Run) collect(r string, cond func(rf *e9Refresh) bool) {
 	rf := x.refr[r]
 	deadline := time.After(e9Wait)
+	tick := time.NewTicker(2 * time.Millisecond)
+	defer tick.Stop()
 	for !cond(rf) {
 		select {
 		case a := <-e9G.arr:
 			o := x.refr[a.r]
+			if o == nil {
+				o = x.blocked[a.r]
+			}
 			if o == nil {
 				x.t.Fatalf("gate arrival %q of an unknown refresh %q", a.site, a.r)
 			}
@@ -621,6 +674,11 @@ func (x *e9Run) collect(r string, cond func(rf *e9Refresh) bool) {
 			}
 		case err := <-rf.done:
 			rf.ret, rf.err = true, err
+		case <-tick.C:
+			if rf.mayBlock && len(rf.pending) == 0 && e9RefreshBlocked() {
+				rf.blocked = true
+				return
+			}
 		case <-deadline:
 			x.t.Fatalf("refresh %s: no progress (pending %v, returned %v)", r, rf.pending, rf.ret)
 		}
@@ -736,9 +794,16 @@ func (x *e9Run) step(i int, s e9Step) {
 		x.refr[s.R] = rf
 		ctx := context.WithValue(context.Background(), e9CtxKey{}, s.R)
 		go func() { rf.done <- x.f.Refresh(ctx) }()
-		x.collect(s.R, func(rf *e9Refresh) bool { return rf.ret || (len(rf.pending) == 2) })
+		rf.mayBlock = len(x.refr) > 1
+		x.collect(s.R, e9Settled)
+		rf.mayBlock = false
 		ev["r"] = s.R
-		if rf.ret {
+		if rf.blocked {
+			// the File makes this refresh wait for the one in progress: the rest of the world goes on without it
+			ev["res"], ev["err"], ev["lerr"], ev["cerr"] = "blocked", "", false, false
+			x.blocked[s.R] = rf
+			delete(x.refr, s.R)
+		} else if rf.ret {
 			retFields(rf)
 			delete(x.refr, s.R)
 		} else {
@@ -750,7 +815,16 @@ func (x *e9Run) step(i int, s e9Step) {
 			return // the refresh has returned already (a failed one that publishes nothing)
 		}
 		site := map[string]string{"RSwapLoc": "loc", "RSwapCtry": "ctry"}[s.A]
-		x.release(s.R, site)
+		rf := x.refr[s.R]
+		if _, ok := rf.pending["lock:"+site]; ok {
+			x.release(s.R, site)
+			rf.swapped++
+			if rf.swapped == 2 {
+				// both goroutines are through: Refresh itself runs on; wait until it stands at its next gate or returns
+				x.collect(s.R, func(rf *e9Refresh) bool { return rf.ret || len(rf.pending) > 0 })
+			}
+		}
+		// (no gate of that name: a File that publishes its maps together with the databases)
 		ev["r"] = s.R
 		maps = true
 	case "RJoin":
@@ -758,7 +832,7 @@ func (x *e9Run) step(i int, s e9Step) {
 		if rf == nil {
 			return
 		}
-		x.collect(s.R, func(rf *e9Refresh) bool { return rf.ret || len(rf.pending) == 1 })
+		x.collect(s.R, func(rf *e9Refresh) bool { return rf.ret || len(rf.pending) > 0 })
 		ev["r"] = s.R
 		if rf.ret {
 			retFields(rf)
@@ -771,6 +845,9 @@ func (x *e9Run) step(i int, s e9Step) {
 		rf := x.refr[s.R]
 		if rf == nil {
 			return
+		}
+		if _, ok := rf.pending["lock:db"]; !ok {
+			x.t.Fatalf("refresh %s is not in front of the swap of the databases (pending %v)", s.R, rf.pending)
 		}
 		x.release(s.R, "db")
 		// Refresh must now return; a critical section that follows is a visible intermediate state
@@ -810,11 +887,13 @@ func (x *e9Run) step(i int, s e9Step) {
 	case "Subnet":
 		var l *Location
 		if s.LP > 0 {
-			p := x.byID[s.LP]
-			if p == nil {
-				x.t.Fatalf("step %d: no answer with pointer id %d: the behaviour cannot be replayed", i, s.LP)
+			if p := x.byID[s.LP]; p != nil {
+				l = p.l
+			} else {
+				// the real File has given fewer distinct answers than the behaviour assumes (the trace is already
+				// rejected at the look-up that differed): go on with a value of our own
+				l = &Location{Country: Country(s.L.Ctry), Continent: Continent(s.L.Cont), TopSubdivision: s.L.Sub, ASN: ASN(s.L.ASN)}
 			}
-			l = p.l
 		} else {
 			l = &Location{Country: Country(s.L.Ctry), Continent: Continent(s.L.Cont), TopSubdivision: s.L.Sub, ASN: ASN(s.L.ASN)}
 		}
@@ -859,7 +938,7 @@ func (x *e9Run) fileFor(d e9FileDesc) *e9File {
 }
 
 func e9RunWorld(t testing.TB, rg *e9Reg, out *vhOut, shared map[string]*e9File, w *e9World, rng *rand.Rand) {
-	x := &e9Run{t: t, rg: rg, w: w, out: out, ptrs: map[*Location]*e9Ptr{}, byID: map[int]*e9Ptr{}, refr: map[string]*e9Refresh{},
+	x := &e9Run{t: t, rg: rg, w: w, out: out, ptrs: map[*Location]*e9Ptr{}, byID: map[int]*e9Ptr{}, refr: map[string]*e9Refresh{}, blocked: map[string]*e9Refresh{},
 		shared: shared}
 	dir, err := os.MkdirTemp("", "ext9-world-")
 	if err != nil {
@@ -930,6 +1009,9 @@ func e9RunWorld(t testing.TB, rg *e9Reg, out *vhOut, shared map[string]*e9File, 
 	}
 	o1, _ := x.obs(true)
 	out.Emit(e9Event{"ev": "End", "chg": x.chg(), "obs": o1})
+	for r, rf := range x.blocked {
+		x.refr[r] = rf
+	}
 	if len(x.refr) > 0 {
 		// let unfinished refreshes run out (not part of the trace)
 		e9G.free.Store(true)
@@ -963,10 +1045,12 @@ func (x *e9Run) autoData(rng *rand.Rand, cnt int) (steps []e9Step) {
 	_, o := x.obs(false)
 	var pool [][]int
 	add := func(b []int) { pool = append(pool, append([]int{}, b...)) }
-	for _, v := range []int{o.DBA, o.DBC} {
+	var pools [2][][]int
+	for vi, v := range []int{o.DBC, o.DBA} {
 		if v <= 0 {
 			continue
 		}
+		pool = nil
 		for _, n := range x.rg.files[v-1].nets {
 			b := append([]int{}, n.B...)
 			add(b)
@@ -992,8 +1076,18 @@ func (x *e9Run) autoData(rng *rand.Rand, cnt int) (steps []e9Step) {
 				}
 			}
 		}
+		rng.Shuffle(len(pool), func(i, j int) { pool[i], pool[j] = pool[j], pool[i] })
+		pools[vi] = pool
 	}
-	rng.Shuffle(len(pool), func(i, j int) { pool[i], pool[j] = pool[j], pool[i] })
+	// alternate between the two databases, so that the smaller one (countries) is covered as well
+	pool = nil
+	for i := 0; i < len(pools[0]) || i < len(pools[1]); i++ {
+		for _, p := range pools {
+			if i < len(p) {
+				pool = append(pool, p[i])
+			}
+		}
+	}
 	// addresses no database knows, always asked
 	var special [][]int
 	for _, s := range []string{"0.0.0.0", "255.255.255.255", "::", "::1", "203.0.113.9", "2001:db8::1", "ff02::1", "::ffff:0.0.0.0",
@@ -1129,7 +1223,7 @@ func TestVerifEXT9Concurrent(t *testing.T) {
 	rng := rand.New(rand.NewSource(vhSeed()))
 	nref, keep := vhEnvInt("VERIF_NREFRESH", 40), vhEnvInt("VERIF_KEEPREADS", 400)
 	for _, w := range in.Worlds {
-		x := &e9Run{t: t, rg: rg, w: w, out: out, ptrs: map[*Location]*e9Ptr{}, byID: map[int]*e9Ptr{}, refr: map[string]*e9Refresh{},
+		x := &e9Run{t: t, rg: rg, w: w, out: out, ptrs: map[*Location]*e9Ptr{}, byID: map[int]*e9Ptr{}, refr: map[string]*e9Refresh{}, blocked: map[string]*e9Refresh{},
 			shared: map[string]*e9File{}}
 		dir, derr := os.MkdirTemp("", "ext9-conc-")
 		if derr != nil {
